@@ -49,6 +49,14 @@ class ContinueSig(Exception):
     pass
 
 
+class BlockedSig(Exception):
+    """A modelled second thread reached `with <lock>` on a lock the analysed thread holds: it cannot proceed now."""
+
+    def __init__(self, key):
+        super().__init__("blocked")
+        self.key = key
+
+
 class BackedgeSig(Exception):
     """End of one iteration of a loop analysed in single-iteration mode."""
 
@@ -841,6 +849,9 @@ class Interp:
         names = []
         for item in st.items:
             cm = self.eval(run, item.context_expr, env)
+            blk = run.memo.get("@held_by_other")
+            if blk and isinstance(cm, Sym) and cm.name.startswith("Lock#") and cm.key() in blk:
+                raise BlockedSig(cm.key())
             nm = self.describe(run, cm)
             names.append((nm, cm))
             run.effect("with.enter", (cm,), {"name": C(nm)}, node=item.context_expr)
@@ -1007,8 +1018,30 @@ class Interp:
             else:
                 v = self.eval(run, p.value, env)
                 conv = {115: "s", 114: "r", 97: "a"}.get(p.conversion)
-                parts.append(self.tf.to_str(self, run, v, conv, p))
+                if p.format_spec is not None:
+                    parts.append(self._formatted(run, v, conv, p, env))
+                else:
+                    parts.append(self.tf.to_str(self, run, v, conv, p))
         return concat(parts, "str")
+
+    def _formatted(self, run, v, conv, p, env):
+        """{value:spec}: folded on constants; an integer presentation type applied to a value not known to be an int
+        may raise ValueError (f"{0.5:d}"), a numeric one applied to a str likewise."""
+        spec = self.eval(run, p.format_spec, env)
+        spec = self.resolve(run, spec)
+        rv = self.resolve(run, v)
+        if isinstance(spec, C) and isinstance(rv, C) and conv is None:
+            try:
+                return C(format(rv.v, spec.v))
+            except (ValueError, TypeError) as e:
+                self.raise_builtin(run, type(e).__name__, p, C(str(e)))
+        if isinstance(spec, C) and isinstance(spec.v, str) and spec.v and conv is None:
+            ty = spec.v[-1]
+            k = run.kind_of(rv)
+            if (ty in "bcdoxXn" and k not in ("int", "bool")) or (ty in "eEfFgG%" and k in ("str", "bytes")):
+                if run.choose(2, self.locof(p), f"format spec {spec.v!r} does not fit the value {rv!r}") == 1:
+                    self.raise_builtin(run, "ValueError", p, C(f"Unknown format code {ty!r} for this object"))
+        return App("format", (rv, spec), "str")
 
     def ex_FormattedValue(self, run, node, env):
         return self.tf.to_str(self, run, self.eval(run, node.value, env), None, node)
@@ -1361,6 +1394,16 @@ class Interp:
         run.cell(y).items.extend(list(self.iterate(run, self.eval(run, node.value, env), node)))
         return NONE
 
+    def _default(self, run, fi, pname, expr, denv):
+        """Python evaluates a default once, when the `def` runs: a default that calls something or builds a mutable object is
+        one value shared by every call (constants and names give the same result either way and are simply re-evaluated)."""
+        if any(isinstance(n, (ast.Call, ast.List, ast.Dict, ast.Set, ast.ListComp, ast.DictComp, ast.SetComp)) for n in ast.walk(expr)):
+            k = ("@default", fi.qualname, pname)
+            if k not in run.memo:
+                run.memo[k] = self.eval(run, expr, denv)
+            return run.memo[k]
+        return self.eval(run, expr, denv)
+
     def bind_params(self, run, fi, env: Env, args: List[Value], kwargs: Dict[str, Value], node):
         a = fi.node.args
         params = [p.arg for p in a.posonlyargs + a.args]
@@ -1386,7 +1429,7 @@ class Interp:
             else:
                 di = i - (len(params) - ndef)
                 if di >= 0:
-                    env.vars[p] = self.eval(run, defaults[di], denv)
+                    env.vars[p] = self._default(run, fi, p, defaults[di], denv)
                 elif star is not None:
                     env.vars[p] = App("index", (star, C(p)))
                 else:
@@ -1400,7 +1443,7 @@ class Interp:
             if p.arg in kwargs:
                 env.vars[p.arg] = kwargs.pop(p.arg)
             elif d is not None:
-                env.vars[p.arg] = self.eval(run, d, denv)
+                env.vars[p.arg] = self._default(run, fi, p.arg, d, denv)
             else:
                 self.raise_builtin(run, "TypeError", node, C(f"missing keyword {p.arg}"))
         if a.kwarg:
